@@ -221,6 +221,43 @@ func TestRegistryNaming(t *testing.T) {
 		rr.Stop()
 		restarts = append(restarts, restart{"datadog-client", first, second})
 	}()
+	// one backend, two owners: a second registry over the same go-metrics backend and prefix (a limiter rebuilt at run
+	// time), and a metric the application registered itself beforehand: samples reach the backend metric of that name
+	type shared struct {
+		what          string
+		first, second int64
+	}
+	var shareds []shared
+	func() {
+		gm := gometrics.NewRegistry()
+		r1, err := gmreg.NewGoMetricsMetricRegistry(gm, "", "svc", time.Hour)
+		if err != nil {
+			t.Fatal(err)
+		}
+		r1.RegisterDistribution("demo.rtt").AddSample(3)
+		r1.RegisterCount("demo.dropped").AddSample(1)
+		count := func(name string) int64 {
+			switch m := gm.Get(name).(type) {
+			case gometrics.Histogram:
+				return m.Count()
+			case gometrics.Counter:
+				return m.Count()
+			}
+			return -1
+		}
+		h1, c1 := count("svc.demo.rtt"), count("svc.demo.dropped")
+		r2, err := gmreg.NewGoMetricsMetricRegistry(gm, "", "svc", time.Hour)
+		if err != nil {
+			t.Fatal(err)
+		}
+		r2.RegisterDistribution("demo.rtt").AddSample(4)
+		r2.RegisterCount("demo.dropped").AddSample(1)
+		shareds = append(shareds, shared{"second registry / distribution", h1, count("svc.demo.rtt")}, shared{"second registry / count", c1, count("svc.demo.dropped")})
+		pre := gometrics.GetOrRegisterHistogram("svc.pre.rtt", gm, gometrics.NewUniformSample(100))
+		pre.Update(1)
+		r1.RegisterDistribution("pre.rtt").AddSample(5)
+		shareds = append(shareds, shared{"pre-registered / distribution", 1, count("svc.pre.rtt")})
+	}()
 	wg.Wait()
 	sort.Slice(results, func(i, j int) bool {
 		if results[i].ctor != results[j].ctor {
@@ -234,6 +271,9 @@ func TestRegistryNaming(t *testing.T) {
 			continue
 		}
 		w.write(J{"ev": "Naming", "trace": k, "ctor": r.ctor, "prefix": r.prefix, "rtt": r.seen[ids[0]], "limit": r.seen[ids[1]]})
+	}
+	for k, r := range shareds {
+		w.write(J{"ev": "Shared", "trace": len(results) + len(restarts) + k, "what": r.what, "first": r.first, "second": r.second})
 	}
 	for k, r := range restarts {
 		w.write(J{"ev": "Restart", "trace": len(results) + k, "ctor": r.ctor, "first": r.first, "second": r.second, "want": J{"first": 7, "second": 9}})
